@@ -487,6 +487,29 @@ class Program:
                 for t in tgts:
                     if isinstance(t, ast.Name) and t.id == expr.id:
                         r = self.repo.resolve_expr(val.func, fi.module, fi) if isinstance(val, ast.Call) and isinstance(val.func, (ast.Name, ast.Attribute)) else None
+                        if r is None and isinstance(val, ast.Call) and isinstance(val.func, ast.Name) and fi.cls is not None and fi.params \
+                                and val.func.id == fi.params[0] and any(d.endswith("classmethod") for d in fi.decorators):
+                            r = fi.cls  # obj = cls(...) inside a classmethod
+                        if isinstance(r, ClassInfo):
+                            classes.add(r.qual)
+                        else:
+                            other = True
+                    elif isinstance(t, (ast.Tuple, ast.List)) and any(isinstance(x, ast.Name) and x.id == expr.id for x in t.elts) and isinstance(val, ast.Call):
+                        # a, b = f(...) where f is annotated `-> tuple[A, B]`
+                        i_ = next(i for i, x in enumerate(t.elts) if isinstance(x, ast.Name) and x.id == expr.id)
+                        tgt_f = self.resolve_call(fi, val)
+                        ann = tgt_f[0].node.returns if isinstance(tgt_f, list) and len(tgt_f) == 1 and not isinstance(tgt_f[0].node, ast.Lambda) else None
+                        r = None
+                        if isinstance(ann, ast.Subscript) and isinstance(ann.value, ast.Name) and ann.value.id in ("tuple", "Tuple") and isinstance(ann.slice, ast.Tuple) \
+                                and i_ < len(ann.slice.elts):
+                            el = ann.slice.elts[i_]
+                            if isinstance(el, ast.Constant) and isinstance(el.value, str):
+                                try:
+                                    el = ast.parse(el.value, mode="eval").body
+                                except SyntaxError:
+                                    el = None
+                            if isinstance(el, (ast.Name, ast.Attribute)):
+                                r = self.repo.resolve_expr(el, tgt_f[0].module, tgt_f[0])
                         if isinstance(r, ClassInfo):
                             classes.add(r.qual)
                         else:
